@@ -18,7 +18,7 @@ NOT_APPLICABLE = {}
 PROPS["C02"] = dict(
     level="exploration",
     default_binary="c02",
-    binaries={"c02": dict(src=["props/c02.cpp"], variants=["dflt"])},
+    binaries={"c02": dict(src=["props/c02.cpp"], variants=["dflt", "uchar"])},
     stages=[
         stage("corpus", workers=1),
         stage("automaton"),
@@ -73,7 +73,7 @@ PROPS["C03"] = dict(
 PROPS["C04"] = dict(
     level="exploration",
     default_binary="c04",
-    binaries={"c04": dict(src=["props/c04.cpp"], variants=["dflt"])},
+    binaries={"c04": dict(src=["props/c04.cpp"], variants=["dflt", "uchar"])},
     stages=[
         stage("corpus", workers=1),
         stage("lengths"),
@@ -127,6 +127,7 @@ PROPS["C09"] = dict(
     binaries={"c09": dict(src=["props/c09.cpp"], variants=["dflt", "o001"])},
     stages=[
         stage("lengths"),
+        stage("words"),
         stage("random", kind="rc", quick=4000, thorough=250000, max_size=100),
     ],
     rule="Valid host names without root dot built from 0-3 leading labels (every length 1-63 for one leading label; an (l1,l2) grid - complete in "
